@@ -151,6 +151,7 @@ func runC11(c *core.Ctx) {
 	checkStrictMirror(c)
 	c.Rule("ASSERT", "runtime type assertions keep the nullability of their target, so strict calls still see (and short-circuit on) NULL")
 	checkAssertionSites(c)
+	checkAssertionFlow(c)
 }
 
 func checkFunctionCall(c *core.Ctx, ids map[string]int64) {
